@@ -280,3 +280,51 @@ Definition libs_have_ids (g : glyph) : Prop :=
   Forall (fun c => (clib c <> None -> cid c <> None) /\
                    Forall (fun p => plib p <> None -> pid p <> None) (cpoints c)) (gcontours g) /\
   Forall (fun c => colib c <> None -> coid c <> None) (gcomps g).
+
+(** ---------- values the XML property-list writer cannot carry; encoding a sequence ---------- *)
+(** A lib may hold a UID (plist::Value::Uid), a value kind of binary property lists that [pv]
+    (shared with the readers and the font-level models) does not have.  The XML writer fails on
+    it (GlifWriteError::Plist), which is the one way [encode_xml] can fail.  A glyph handed to the
+    writer is therefore a glyph together with the positions at which it holds a UID (the glyph
+    component holds a placeholder there, which is never written): the top-level key of the
+    glyph lib under which it sits, or the object in whose lib it sits. *)
+Inductive upos :=
+| UGlyph (k : str) | UAnchor (i : nat) | UGuide (i : nat) | UContour (i : nat) | UPoint (i j : nat)
+| UComp (i : nat).
+(** does the UID reach the property-list writer?  Libs of contours without points are not
+    written; a [public.objectLibs] entry of the glyph lib is replaced when there are object libs *)
+Definition upos_written (g : glyph) (p : upos) : bool :=
+  match p with
+  | UGlyph k =>
+      negb (str_eqb k objlibs_key && match dump_object_libs g with Ok (_ :: _) => true | _ => false end)
+  | UAnchor i => Nat.ltb i (List.length (ganchors g))
+  | UGuide i => Nat.ltb i (List.length (gguides g))
+  | UContour i => match nth_error (gcontours g) i with Some c => has_points c | None => false end
+  | UPoint i j =>
+      match nth_error (gcontours g) i with Some c => Nat.ltb j (List.length (cpoints c)) | None => false end
+  | UComp i => Nat.ltb i (List.length (gcomps g))
+  end.
+Record wglyph := mkW { w_glyph : glyph; w_uids : list upos }.
+Inductive wop := OpEncode | OpSave.
+
+Section EncodeSeq.
+  Variable ff ff3 : fl -> str.
+  Variable fi : Z -> str.
+  Variable fh : N -> str.
+  (** [encode_xml_with_options]: the object libs are collected first (a lib without an identifier
+      panics there), the lib is the last thing but the note to be written *)
+  Definition encode_w (o : wopts) (w : wglyph) : res node :=
+    match written_lib (w_glyph w) with
+    | Ok _ =>
+        if existsb (upos_written (w_glyph w)) (w_uids w) then Err EPlistWrite
+        else encode_glif ff ff3 fi fh o (w_glyph w)
+    | _ => encode_glif ff ff3 fi fh o (w_glyph w)
+    end.
+  (** [Glyph::save]: refuses a glyph lib with a [public.objectLibs] key, then encodes *)
+  Definition save_w (o : wopts) (w : wglyph) : res node :=
+    if has_key objlibs_key (glib (w_glyph w)) then Err EPreexistingObjectLibs else encode_w o w.
+  Definition run_op (x : wop * wopts * wglyph) : res node :=
+    let '(op, o, w) := x in match op with OpEncode => encode_w o w | OpSave => save_w o w end.
+  (** a history of writes: the model keeps no state between them *)
+  Definition encode_seq (l : list (wop * wopts * wglyph)) : list (res node) := map run_op l.
+End EncodeSeq.
